@@ -17,6 +17,9 @@ package main
 
 import (
 	"fmt"
+	"os"
+	"os/exec"
+	"path/filepath"
 	"strings"
 )
 
@@ -59,6 +62,11 @@ func termUB(t *Term) uint64 {
 	case OpConcat:
 		if hi := t.args[0]; hi.op == OpConst && hi.c == 0 && t.args[1].w <= 64 {
 			return termUB(t.args[1])
+		}
+	case OpBvAdd:
+		a, b := termUB(t.args[0]), termUB(t.args[1])
+		if s := a + b; s >= a && s <= full {
+			return s
 		}
 	case OpBvURem:
 		if d := t.args[1]; d.op == OpConst && d.c > 0 {
@@ -159,6 +167,7 @@ func init() {
 
 		// ---- clock
 		n["time.Now"] = func(x *Exec, fr *frame, a []Value) Value {
+			x.noSpec("time.Now") // a clock reading is an input: never inside a speculated (if-converted) arm
 			fz, _ := x.ghost[ghostFrozen].(bool)
 			tick, _ := x.ghost[ghostTick].(bool)
 			x.ghost[ghostTick] = false
@@ -195,6 +204,87 @@ func init() {
 			return nil
 		})
 	})
+}
+
+// rewritePath resolves an entry of the spec's replay_rewrite list: repo-relative by default; a leading
+// "$GOMODCACHE/" names a file of a dependency module (e.g. zgo.at/zcache), absolute paths are kept.
+func rewritePath(f string) string {
+	const pre = "$GOMODCACHE/"
+	if strings.HasPrefix(f, pre) {
+		mc := os.Getenv("GOMODCACHE")
+		if mc == "" {
+			cmd := exec.Command("go", "env", "GOMODCACHE")
+			cmd.Env = goEnv()
+			if out, err := cmd.Output(); err == nil {
+				mc = strings.TrimSpace(string(out))
+			}
+		}
+		return filepath.Join(mc, strings.TrimPrefix(f, pre))
+	}
+	if filepath.IsAbs(f) {
+		return f
+	}
+	return filepath.Join(repoDir, f)
+}
+
+// rewriteModuleFile handles a replay_rewrite entry "$GOMODCACHE/<module>@<version>/<file>": the module
+// directory is copied to tmp, time.Now() in <file> is replaced by verif.Now(), and a go.mod (+go.sum)
+// copy with a replace directive is written; the returned arguments (-modfile=...) go to `go test`.
+func rewriteModuleFile(f, tmp string) ([]string, error) {
+	rel := strings.TrimPrefix(f, "$GOMODCACHE/")
+	at := strings.Index(rel, "@")
+	if at < 0 {
+		return nil, fmt.Errorf("replay_rewrite %s: want $GOMODCACHE/<module>@<version>/<file>", f)
+	}
+	modPath := rel[:at]
+	rest := rel[at+1:]
+	sl := strings.Index(rest, "/")
+	if sl < 0 {
+		return nil, fmt.Errorf("replay_rewrite %s: no file", f)
+	}
+	version, file := rest[:sl], rest[sl+1:]
+	srcDir := rewritePath("$GOMODCACHE/" + modPath + "@" + version)
+	dstDir := filepath.Join(tmp, "mod-"+sanitize(modPath))
+	err := filepath.Walk(srcDir, func(p string, info os.FileInfo, err error) error {
+		if err != nil {
+			return err
+		}
+		r, _ := filepath.Rel(srcDir, p)
+		dst := filepath.Join(dstDir, r)
+		if info.IsDir() {
+			return os.MkdirAll(dst, 0o755)
+		}
+		if strings.HasSuffix(p, "_test.go") {
+			return nil
+		}
+		b, err := os.ReadFile(p)
+		if err != nil {
+			return err
+		}
+		if r == file {
+			out, err := rewriteTimeNow(rewriteTimeCalls(string(b)))
+			if err != nil {
+				return fmt.Errorf("%s: %v", f, err)
+			}
+			b = []byte(out)
+		}
+		return os.WriteFile(dst, b, 0o644)
+	})
+	if err != nil {
+		return nil, err
+	}
+	gomod, err := os.ReadFile(filepath.Join(repoDir, "go.mod"))
+	if err != nil {
+		return nil, err
+	}
+	modfile := filepath.Join(tmp, "go.mod")
+	if err := os.WriteFile(modfile, append(gomod, []byte("\nreplace "+modPath+" => "+dstDir+"\n")...), 0o644); err != nil {
+		return nil, err
+	}
+	if gosum, err := os.ReadFile(filepath.Join(repoDir, "go.sum")); err == nil {
+		os.WriteFile(filepath.Join(tmp, "go.sum"), gosum, 0o644)
+	}
+	return []string{"-modfile=" + modfile}, nil
 }
 
 // rewriteTimeCalls rewrites time.Until(X) / time.Since(X) into expressions over time.Now() so that the
